@@ -222,6 +222,7 @@ class Case:
     scope = ""  # description of the bound when ``domain`` is given
     proved = True  # False => bounded only (never counted as proved)
     axioms = None
+    allow_uncovered = ()  # outcome kinds that are legitimately unreachable in this configuration
     scopes = ()  # sequence lengths for the finite-scope refutation fallback (DESIGN 2.9)
     native = True  # False: the function is not reachable natively (nested function): no replay / cross-check
     ground = None  # optional: callable() -> iterable of primitive dicts: a complete finite domain
